@@ -595,6 +595,8 @@ def real_arena(res, n):
     for _ in range(n):
         ops = gen_history(rng, pg, rng.choice([10, 30, 60]), rng.choice(['random', 'lifo', 'fifo', 'checker', 'exact']))
         cases.append(dict(pg=pg, size=pg, ops=ops, real=True))
+    for _ in range(n // 3):     # with frees issued from inside malloc/free by the same thread
+        cases.append(dict(pg=pg, size=pg, ops=gen_nested_history(rng, pg, rng.choice([10, 30, 60])), real=True))
     outs = core.run_driver('heap_driver.py', cases)
     judge(res, cases, outs, 'real')
     res.add_cov(evaluations=len(cases), traces=len(cases), real_arena_cases=len(cases),
@@ -640,7 +642,7 @@ def run(res):
     if res.broken and not res.alarms and res.tier == 'quick':
         # failing-input search: a proof, the translation or the correspondence is broken but no history on
         # which the property itself fails has been found yet -- look harder
-        correspond(res, 3000, 2, 400, 1500, search=1)
+        correspond(res, 3000, 2, 400, 800, search=1)
     if res.tier != 'quick':
         real_arena(res, 300)
         threads_scenario(res, 6)
